@@ -333,6 +333,60 @@ def multi_component_shard(args):
     return part.done()
 
 
+def refresh_shard(args):
+    """Run-time update of the bank registry: the bundled list plus new entries is saved and the
+    library's own index-building statements are run AGAIN (the indexes of the old list exist at that
+    moment).  Every obligation is then checked against the updated list: a second BIC for a listed
+    key, a new key in a listed country, the first bank of a country without banks, a listed BIC with
+    one more bank code, and an entry placed in FRONT of the old list."""
+    _, tier = args
+    part = par.Part()
+    before = sandbox.deep_snapshot()
+    old = reg.bank_list()
+
+    def e(cc, code, bic, name, primary=False):
+        return {"country_code": cc, "bank_code": code, "bic": bic, "name": name, "short_name": name,
+                "primary": primary}
+    first_de = next(x for x in old if x["country_code"] == "DE" and x["bic"])
+    no_banks = next((cc for cc, co in sorted(reg.countries().items())
+                     if cc not in lookup.by_country() and co.positions and co.lookup_components == ["bank_code"]
+                     and co.classes and set(co.classes[co.span("bank_code")[0]:co.span("bank_code")[1]]) == {"n"}), None)
+    additions = [e("DE", first_de["bank_code"], "ZZZZDEZZ", "second BIC of a listed key"),
+                 e("DE", "99999999", "YYYYDEYYXXX", "new key in a listed country"),
+                 e("DE", "99999998", first_de["bic"], "listed BIC, one more code")]
+    if no_banks:
+        w = reg.countries()[no_banks].span("bank_code")
+        additions.append(e(no_banks, "7" * (w[1] - w[0]), "XXXX" + no_banks + "XX", "first bank of its country"))
+    for label, banks in (("appended", old + additions), ("put in front", additions + old)):
+        with sandbox.bank_list_refreshed([dict(x) for x in banks]):
+            index, bic_index = lookup.index_by_key(banks), lookup.index_by_bic(banks)
+            for a in additions:
+                part.count(("refresh", label, a["country_code"], a["bank_code"]))
+                part["evals"] += 3
+                probs = list(check_key(index, a["country_code"], a["bank_code"]))
+                if a["bic"]:
+                    probs += check_bic(bic_index, a["bic"])
+                probs += check_iban(index, a["country_code"], a["bank_code"]) or []
+                k, v = lib.outcome(lambda: [x for x in lib.registry.get("country").get(a["country_code"], [])
+                                            if x.get("bank_code") == a["bank_code"]])
+                if k != "ok" or not v:
+                    probs.append(("new-entry-missing-from-the-country-index", a, (k, v)))
+                for sig, exp, obs in probs:
+                    part.violation(f"{sig} [after a run-time update of the bank list, new entries {label}]",
+                                   {"kind": "c12refresh", "entry": a, "placement": label}, exp, obs)
+    try:
+        sandbox.assert_restored(before)
+    except report.HarnessError:
+        # putting the earlier registry objects back did not give the earlier state: the refresh wrote
+        # into the index objects built at import instead of building new ones
+        part.violation("refresh-writes-into-the-indexes-built-earlier [after a run-time update of the bank list]",
+                       {"kind": "c12refresh", "entry": additions[0], "placement": "restore"},
+                       "earlier index objects untouched", "state after restoring them differs from the state before")
+    part.stat("runtime_bank_list_updates", 2)
+    part.sample({"runtime_update": [a["name"] for a in additions]})
+    return part.done()
+
+
 def foreign_shard(args):
     """For every country of the IBAN table: bank codes listed for OTHER countries (same lookup-field
     width) are unlisted here - an IBAN of this country carrying such a code has no bank and no BIC
@@ -372,6 +426,8 @@ def shard(args):
         return bundled_shard(args)
     if args[0] == "foreign":
         return foreign_shard(args)
+    if args[0] == "refresh":
+        return refresh_shard(args)
     if args[0] == "multi":
         before = sandbox.deep_snapshot()
         out = multi_component_shard(args)
@@ -389,6 +445,10 @@ def replay(case: dict) -> dict:
         probs = check_key(lookup.by_key(), case["country"], case["code"])
     elif case["kind"] == "c12iban":
         probs = check_iban(lookup.by_key(), case["country"], case["code"]) or []
+    elif case["kind"] == "c12refresh":
+        part = refresh_shard(("refresh", "quick"))
+        hit = [v for v in part["violations"] if v["case"]["entry"] == case["entry"]]
+        return {"ok": not hit, "observed": [h["observed"] for h in hit[:3]]}
     elif case["kind"] == "c12multi":
         banks, country = case["banks"], case["country"]
         _, probe_keys, keys = multi_component_registries(country, "quick")
@@ -413,6 +473,7 @@ def main(tier: str) -> int:
     shards += [("foreign", c, tier) for c in sorted(reg.countries())]
     # empty registry and the empty-list case
     shards += [("syn", i, tier) for i in range(len(entry_alphabet()))]
+    shards.append(("refresh", tier))
     shards += [("multi", c, tier) for c, co in sorted(reg.countries().items())
                if co.positions and len(co.lookup_components) > 1
                and all(co.span(x) for x in co.lookup_components)]
